@@ -482,8 +482,9 @@ def write_config(home, cfg):
 # running the binary
 # --------------------------------------------------------------------------
 def run_fselect(argv, cwd, home, tz="UTC", fake_epoch=None, fail_after=None, uid=None, timeout=10.0,
-                extra_env=None, stdin=None, write_log=None):
-    env = {"HOME": home, "XDG_CONFIG_HOME": os.path.join(home, ".config"), "TZ": tz, "LC_ALL": "C",
+                extra_env=None, stdin=None, write_log=None, user_home=None):
+    # (user_home: what `~` stands for, when that is to be a directory of the world; the configuration stays where it is)
+    env = {"HOME": user_home or home, "XDG_CONFIG_HOME": os.path.join(home, ".config"), "TZ": tz, "LC_ALL": "C",
            "PATH": "/usr/bin:/bin", "NO_COLOR": "1", "RUST_BACKTRACE": "0"}
     pre = []
     if fake_epoch is not None:
